@@ -593,6 +593,15 @@ impl CompactThetaSketch {
         num_entries: usize,
         theta: u64,
     ) -> Result<Vec<u64>, Error> {
+        if theta == 0 || theta > MAX_THETA {
+            return Err(Error::deserial(format!(
+                "corrupted: theta {theta} out of range"
+            )));
+        }
+        // do not trust the count for the allocation: the entries must actually be there
+        if num_entries > cursor.remaining() / 8 {
+            return Err(Error::insufficient_data("entries"));
+        }
         let mut entries = Vec::with_capacity(num_entries);
         for _ in 0..num_entries {
             let hash = cursor.read_u64_le().map_err(insufficient_data("entries"))?;
@@ -602,6 +611,18 @@ impl CompactThetaSketch {
             entries.push(hash);
         }
         Ok(entries)
+    }
+
+    /// An image that claims to be ordered must hold strictly ascending hashes, otherwise
+    /// the delta encoding of `serialize_compressed` would underflow.
+    fn ensure_ascending(entries: &[u64]) -> Result<(), Error> {
+        if entries.windows(2).all(|w| w[0] < w[1]) {
+            Ok(())
+        } else {
+            Err(Error::deserial(
+                "corrupted: ordered sketch with unsorted or duplicate hash values",
+            ))
+        }
     }
 
     fn deserialize_v1(mut cursor: SketchSlice<'_>, expected_seed: u64) -> Result<Self, Error> {
@@ -632,6 +653,7 @@ impl CompactThetaSketch {
         }
 
         let entries = Self::read_entries(&mut cursor, num_entries, theta)?;
+        Self::ensure_ascending(&entries)?;
 
         Ok(Self {
             entries,
@@ -678,6 +700,7 @@ impl CompactThetaSketch {
                     .read_u32_le()
                     .map_err(insufficient_data("<unused_u32>"))?;
                 let entries = Self::read_entries(&mut cursor, num_entries, MAX_THETA)?;
+                Self::ensure_ascending(&entries)?;
                 Ok(Self {
                     entries,
                     theta: MAX_THETA,
@@ -699,6 +722,7 @@ impl CompactThetaSketch {
                     .map_err(insufficient_data("theta_long"))?;
                 let empty = (num_entries == 0) && (theta == MAX_THETA);
                 let entries = Self::read_entries(&mut cursor, num_entries, theta)?;
+                Self::ensure_ascending(&entries)?;
                 Ok(Self {
                     entries,
                     theta,
@@ -753,6 +777,9 @@ impl CompactThetaSketch {
             entries = Self::read_entries(&mut cursor, num_entries as usize, theta)?;
         }
         let ordered = (flags & serialization::FLAGS_IS_ORDERED) != 0;
+        if ordered {
+            Self::ensure_ascending(&entries)?;
+        }
         Ok(Self {
             entries,
             theta,
@@ -790,6 +817,17 @@ impl CompactThetaSketch {
             MAX_THETA
         };
 
+        if theta == 0 || theta > MAX_THETA {
+            return Err(Error::deserial(format!(
+                "corrupted: theta {theta} out of range"
+            )));
+        }
+        if !(1..=63).contains(&entry_bits) || !(1..=4).contains(&num_entries_bytes) {
+            return Err(Error::deserial(format!(
+                "corrupted: entry_bits {entry_bits}, num_entries_bytes {num_entries_bytes}"
+            )));
+        }
+
         // unpack num_entries
         let mut num_entries = 0usize;
         for i in 0..num_entries_bytes {
@@ -797,6 +835,11 @@ impl CompactThetaSketch {
                 .read_u8()
                 .map_err(insufficient_data("num_entries_byte"))?;
             num_entries |= (entry_count_byte as usize) << ((i as usize) << 3);
+        }
+
+        // do not trust the count for the allocation: the packed deltas must actually be there
+        if (num_entries * entry_bits as usize).div_ceil(8) > cursor.remaining() {
+            return Err(Error::insufficient_data("delta_block"));
         }
 
         // unpack blocks of BLOCK_WIDTH deltas
@@ -830,11 +873,12 @@ impl CompactThetaSketch {
         // undo deltas
         let mut previous = 0;
         for e in &mut entries {
-            *e += previous;
-            previous = *e;
-            if *e == 0 || *e >= theta {
+            // a zero delta would duplicate a hash; the sum must stay below theta
+            if *e == 0 || *e >= theta - previous {
                 return Err(Error::deserial("corrupted: invalid retained hash value"));
             }
+            *e += previous;
+            previous = *e;
         }
 
         let ordered = (flags & serialization::FLAGS_IS_ORDERED) != 0;
